@@ -547,6 +547,10 @@ func Worker(shard, n int, tier string) *engine.Result {
 			res.Nontrivial[kind+"|"+m.name] = true
 			restore()
 		}
+		// (c) batches: several Ethereum messages of two senders in one Cosmos envelope
+		if strings.HasPrefix(kind, "eth-") {
+			f.batches(kind, n0, shard, n, &idx, res, tier)
+		}
 		// (b) orders
 		alpha := []variant{
 			good,
@@ -598,6 +602,99 @@ func Worker(shard, n int, tier string) *engine.Result {
 		rec(0, []string{"kind=" + kind}, n0, map[string]bool{})
 	}
 	return res
+}
+
+// batches delivers every envelope of <= 3 (thorough 4) Ethereum messages drawn from
+// {S(n), S(n+1), T(m), T(m+1)} (repetition allowed).  Reference: walking the messages in order,
+// each nonce must equal its sender's running sequence; otherwise the whole transaction must be
+// rejected without any effect.
+func (f *fixture) batches(kind string, n0 uint64, shard, n int, idx *int, res *engine.Result, tier string) {
+	w := f.w
+	const T = 3
+	m0 := w.App.AccountKeeper.GetAccount(w.Ctx(), w.Addrs[T]).GetSequence()
+	type el struct {
+		name   string
+		sender int
+		nonce  uint64
+		tx     *ethtypes.Transaction
+	}
+	mk := func(name string, sender int, nonce uint64) el {
+		s := f.ethSpec(kind, nonce)
+		return el{name, sender, nonce, w.SignEth(w.Keys[sender], s)}
+	}
+	alpha := []el{mk("S(n)", f.S, n0), mk("S(n+1)", f.S, n0+1), mk("T(m)", T, m0), mk("T(m+1)", T, m0+1)}
+	maxLen := 3
+	if tier == "thorough" {
+		maxLen = 4
+	}
+	var rec func(cur []el)
+	rec = func(cur []el) {
+		if len(cur) >= 2 {
+			*idx++
+			if *idx%n == shard {
+				var txs []*ethtypes.Transaction
+				var names []string
+				seqS, seqT := n0, m0
+				valid := true
+				for _, e := range cur {
+					txs = append(txs, e.tx)
+					names = append(names, e.name)
+					if e.sender == f.S {
+						if e.nonce != seqS {
+							valid = false
+						}
+						seqS++
+					} else {
+						if e.nonce != seqT {
+							valid = false
+						}
+						seqT++
+					}
+				}
+				bz, err := world.WrapEth(txs...)
+				if err == nil {
+					p := []string{"kind=" + kind, "batch=[" + strings.Join(names, " ") + "]"}
+					restore := w.Branch()
+					pre := f.snap()
+					preT := w.App.AccountKeeper.GetAccount(w.Ctx(), w.Addrs[T]).GetSequence()
+					r := w.Deliver(bz)
+					post := f.snap()
+					postT := w.App.AccountKeeper.GetAccount(w.Ctx(), w.Addrs[T]).GetSequence()
+					restore()
+					res.Transitions++
+					res.Evaluations++
+					res.States[strings.Join(p, "|")] = len(cur)
+					charged := post.seq != pre.seq || postT != preT || !post.balS.Equal(pre.balS) || !post.balR.Equal(pre.balR) || !post.balOth.Equal(pre.balOth)
+					if !valid {
+						res.Outcomes["batch:invalid"]++
+						res.Nontrivial[strings.Join(p, "|")] = true
+						if r.Code == 0 || charged {
+							res.AddViolation(engine.Violation{Signature: fmt.Sprintf("C03|kind=%s|case=batch|breach=replay-in-batch", kind),
+								What: "an envelope containing a replayed / out-of-order Ethereum message was accepted or charged", Path: p,
+								Detail: map[string]any{"code": r.Code, "log": firstLine(r.Log), "seqS": fmt.Sprint(pre.seq, "->", post.seq), "seqT": fmt.Sprint(preT, "->", postT)}})
+						}
+					} else {
+						if r.Code == 0 {
+							res.Outcomes["batch:valid:accepted"]++
+							if post.seq != seqS || postT != seqT {
+								res.AddViolation(engine.Violation{Signature: fmt.Sprintf("C03|kind=%s|case=batch|breach=seq", kind),
+									What: "an accepted batch did not advance every sender's sequence by its number of messages", Path: p})
+							}
+						} else {
+							res.Outcomes["batch:valid:rejected"]++
+						}
+					}
+				}
+			}
+		}
+		if len(cur) == maxLen {
+			return
+		}
+		for _, e := range alpha {
+			rec(append(append([]el{}, cur...), e))
+		}
+	}
+	rec(nil)
 }
 
 func Run(tier string) int {
